@@ -97,6 +97,51 @@ FOCUS_E = {
 }
 ROUND_FOCUS = {"E": FOCUS_E}
 
+# round F
+FOCUS_F = {
+ "C01": ["quotes and backslashes protect what they enclose: backslash inside double quotes before characters that are and are not special there, single quotes inside double quotes, backslash-newline, quotes adjacent to unquoted expansions in one word",
+         "the `=` and `?` forms (value assigned and then used, error message and abort) and `+`; expansions nested in the word of a modifier; the `read` built-in without -r joining backslash-continued lines"],
+ "C02": ["`until` loops, loops whose condition is a list of several commands, `for` without `in` (iterates over the positional parameters), `if` without else whose condition fails (status zero)",
+         "functions: status of a function definition, positional parameters and `$#` during and after a call, `return` without operand returns `$?`, `exit` inside a function, subshell or pipeline component"],
+ "C03": ["assignment operators and prefix / postfix `++` `--`: the value of the expression versus the value stored, chained assignments `a=b=3`, compound assignment to an unset or non-numeric variable",
+         "C precedence and associativity: right-associative `?:` and assignments, unary operators (`-` `+` `~` `!`) binding tighter than binary ones, `*` `/` `%` versus `+` `-` versus shifts versus comparisons versus bitwise versus logical"],
+ "C04": ["`*` is any string and `?` any one character - against multi-byte characters, newlines and the empty string; whole-string anchoring in `case`, prefix / suffix anchoring in `#` / `%`",
+         "bracket expressions: complement with `]` first (`[!]a]`), character classes such as `[:upper:]` `[:space:]` `[:punct:]` `[:xdigit:]`, an unclosed `[` or `[[:alpha:]` being literal, `[a-]` and `[-a]`"],
+ "C05": ["slashes only match literally: `//`, a trailing `/`, `./` and `../` prefixes, absolute patterns; a component without wildcards is taken literally but the path must exist",
+         "if `noglob` is set, or nothing matches, the result is the field itself with quotes removed - for fields with backslashes, quoted wildcards and unmatched bracket expressions"],
+ "C06": ["never an unbounded read-ahead: the parser reads no line it does not need (here-document bodies are read after the command line that announces them, a complete command is returned without looking at the next line)",
+         "the printed form of lists and pipelines re-parses to the same tree: `&` and `;` separators, `!`, `&&` / `||` chains, `case` items with several patterns, `for` without `in`, here-document operators with quoted delimiters"],
+ "C07": ["`trap` output recreates the traps (actions containing quotes and newlines, EXIT, ignored signals) and `set +o` recreates every option setting",
+         "`alias` output recreates aliases whose names or values contain quotes, `=`, blanks or newlines; `readonly -p` and `export -p` for variables that have no value"],
+ "C08": ["a subshell `( )` or asynchronous list cannot change the parent's functions, aliases or shell options, and `exit` / `return` / a failing special built-in inside it ends only the subshell",
+         "redirections performed with `exec` inside a subshell environment (pipeline component, command substitution, asynchronous list) leave the parent's open files untouched"],
+ "C09": ["`>|` and `noclobber` for targets that are not regular files (directories, /dev/null, links), `<>` and `>>` creating a missing file with the right mode under the current umask",
+         "here-documents: `<<-` strips leading tabs only, a quoted delimiter suppresses expansion, several here-documents on one command are read in order and each reaches its own descriptor"],
+ "C10": ["errors of special built-ins (`.` with a missing file, `set` with a bad option, `shift` too far, `export` / `readonly` of an invalid name, `unset` of a read-only variable) abort a non-interactive shell, and do not when run through `command`",
+         "command-not-found (127) and not-executable (126) only set `$?`; errexit inside functions and brace groups that are called from `!`, `&&` / `||` or condition contexts is exempt"],
+ "C11": ["`trap - SIG` restores the default and `trap '' SIG` ignores: the disposition actually installed after each, also for signals the shell handles internally (CHLD; INT / TERM / QUIT / TSTP in an interactive shell)",
+         "KILL and STOP can never be trapped or ignored; the EXIT trap runs with `$?` of the last command and once only; `wait` interrupted by a trapped signal returns a status above 128"],
+ "C12": ["jobs being reported and removed: a finished job that has been reported is removed, a new job takes the lowest free job number, numbers of living jobs never change",
+         "after the current job finishes or is removed, the previous job becomes current and another job (a suspended one first) becomes previous"],
+ "C13": ["`$!` is the process ID of the last command of an asynchronous pipeline or list; `wait` with several operands returns the status of the last operand",
+         "a child killed by a signal is reported with the documented status (384 + signal number, `kill -l` of it names the signal); no zombie is left when a command fails to start or a redirection of a subshell fails"],
+ "C14": ["here-document bodies of every size (also beyond the pipe capacity) with expansions inside the body reach the command byte for byte",
+         "output of a command substitution whose size is exactly at or just around the read-buffer and pipe-buffer boundaries, and invalid UTF-8 bytes in the output"],
+ "C15": ["never polls a task after it completed and never polls a task re-entrantly (a task that drives the executor, or wakes itself, from inside its own poll)",
+         "the value returned by `run_until_stalled` / `step`; wake-ups issued from a destructor while a task is being dropped; a task spawned from inside another task's poll is polled"],
+ "C16": ["a function's positional parameters vanish at return, also after `set --` / `shift` inside the function and for nested calls",
+         "a read-only variable is not modified by `for`, `read`, `getopts`, arithmetic assignment, `${x:=v}`, `typeset`, `unset` or a temporary assignment - each fails and leaves the value intact"],
+ "C17": ["quoted or partly quoted words and words not in command position (after `case WORD in`, `for NAME in`, as arguments) are never replaced",
+         "reserved words, control operators and redirections that emerge from replacement text are recognised as such (`alias w=while`, a value ending in `|` or `&&`, a value containing `>file`), also across a line continuation"],
+ "C18": ["a syntax error on a later line does not undo or prevent the effects of earlier lines, and the exit status is the documented one; an unterminated construct at end of input",
+         "after `exec <file` the shell goes on reading commands from the new standard input exactly where the previous command left it; a subshell or pipeline component reading standard input takes only what it reads"],
+ "C19": ["directories: `cd` into and out of created directories, `cd ..` and `cd -`, `$PWD` and `$OLDPWD`, globbing in byte order, names with unusual bytes",
+         "stopped children: `kill -s STOP` / `CONT` of a background child and `wait`; a signal sent while it is blocked by the shell for a trap; descriptors inherited by subshells and closed on their exit"],
+ "C20": ["`read`, `getopts`, `typeset`, `unset`, `command` and `type`: grouped options, options after `--`, option-arguments attached or separate",
+         "`trap`, `export`, `readonly`, `alias`, `unalias`, `wait`, `fg`/`bg`/`jobs`: unknown options and surplus or missing operands are rejected with a diagnostic, a non-zero status and no effect"],
+}
+ROUND_FOCUS["F"] = FOCUS_F
+
 def main():
     rnd, pid = sys.argv[1], sys.argv[2]
     props = {json.loads(l)["id"]: json.loads(l) for l in open("/verif/properties.jsonl")}
